@@ -12,12 +12,15 @@ for mp in glob.glob('/verif/seeded/*/meta.json'):
     m = json.load(open(mp))
     pid = os.path.basename(os.path.dirname(mp))[:3]
     used.setdefault(pid, []).append((m.get('summary') or '').strip().replace('\n', ' ')[:220])
+    used.setdefault('*', []).append((pid, (m.get('summary') or '').strip().replace('\n', ' ')[:150]))
 for pid in ids:
     wt = '/tmp/%s-%s' % (tag, pid)
     subprocess.run(['git', '-C', '/repo', 'worktree', 'add', '-q', wt, 'HEAD'], check=True)
     p = props[pid]
     ptxt = json.dumps({k: p[k] for k in ('id', 'title', 'statement', 'quantifier', 'why_tests_cant', 'anchors')}, indent=1)
     ideas = '\n'.join('  - ' + u for u in used.get(pid, []))
+    ideas += '\nIdeas used for OTHER properties of knut (do not reuse these either, whatever property they were filed under):\n'
+    ideas += '\n'.join('  - ' + u for q, u in sorted(used.get('*', [])) if q != pid)
     prompt = f"""You are working in a scratch git worktree of the Go project sboehler/knut (a plain-text double-entry accounting CLI) at {wt}. Work ONLY inside {wt} (never touch /repo or /verif, and do not read /verif). There is no network. Every shell call must first run:
   export GOFLAGS=-mod=mod GOPROXY=off GOSUMDB=off GOTOOLCHAIN=local
 Build with `go build ./...`; the whole existing test suite runs with `go test -vet=off -count=1 ./...` (about 5 seconds). Journal syntax: see README.md and doc/example.knut; every transaction must be followed by a blank line.
